@@ -43,6 +43,9 @@ type Hint struct {
 	Len   int    `json:"len,omitempty"`
 	Extra int    `json:"extra,omitempty"` // free/blk: length = page+Extra (may be negative: shorter than the page)
 	Inner uint64 `json:"inner,omitempty"` // free/blk: host bits set inside the block
+	// Pref, Valid: the lifetime fields of the IAPrefix option (the client's preference)
+	Pref  uint32 `json:"pref,omitempty"`
+	Valid uint32 `json:"valid,omitempty"`
 }
 
 // IAPD is one IA_PD option of a request
@@ -174,6 +177,8 @@ func (m *model) othersHeld(client int) []net.IPNet {
 
 // wireHint is a resolved hint plus what the oracle needs to know about it
 type wireHint struct {
+	pref  uint32
+	valid uint32
 	plen  uint8
 	ip    net.IP
 	exact *net.IPNet // non-nil: names exactly this prefix the client holds
@@ -278,8 +283,9 @@ func (m *model) build(msg *Msg, xid uint32) ([]byte, [][]wireHint) {
 			if !ok {
 				continue
 			}
+			w.pref, w.valid = h.Pref, h.Valid
 			ws = append(ws, w)
-			sub = append(sub, gen.IAPrefix6(0, 0, w.plen, w.ip))
+			sub = append(sub, gen.IAPrefix6(h.Pref, h.Valid, w.plen, w.ip))
 		}
 		resolved = append(resolved, ws)
 		var iaid [4]byte
